@@ -279,6 +279,18 @@ def main() -> int:
                 bad += 1
                 if bad < 40:
                     print('SASLPREP MISMATCH', repr(s_), repr(real), repr(model))
+        # B.1 "mapped to nothing": the facade drops exactly these characters
+        import stringprep
+        for cp in range(0x80, 0x110000):
+            if stringprep.in_table_b1(chr(cp)):
+                nchecks += 1
+                try:
+                    r_ = saslprep('a' + chr(cp) + 'b')
+                except ValueError:
+                    r_ = 'ERR'
+                if r_ != 'ab':
+                    bad += 1
+                    print('SASLPREP B.1 MISMATCH', hex(cp), repr(r_))
         # base64 decoding with trailing line ending (discarded characters)
         for t in itertools.product(range(256), repeat=2):
             raw = bytes(t)
